@@ -87,7 +87,8 @@ IP::IP(const uint8_t* buffer, uint32_t total_sz) {
     // While the end of the options is not reached read an option
     while (stream.pointer() < options_end) {
         option_identifier opt_type = (option_identifier)stream.read<uint8_t>();
-        if (opt_type.number > NOOP) {
+        // Only the option types 0 (END) and 1 (NOOP) are single byte ones
+        if (!(opt_type == END) && !(opt_type == NOOP)) {
             // Multibyte options with length as second byte
             const uint32_t option_size = stream.read<uint8_t>();
             if (TINS_UNLIKELY(option_size < (sizeof(uint8_t) << 1))) {
@@ -324,7 +325,7 @@ uint32_t IP::calculate_options_size() const {
         options_size += sizeof(uint8_t);
         const option_identifier option_id = iter->option();
         // Only add length field and data size for non [NOOP, EOL] options
-        if (option_id.op_class != CONTROL || option_id.number > NOOP) {
+        if (!(option_id == END) && !(option_id == NOOP)) {
             options_size += sizeof(uint8_t) + iter->data_size();
         }
     }
